@@ -53,3 +53,47 @@ proof fn lemma_count_remove(p: spec_fn(int) -> bool, q: spec_fn(int) -> bool, b:
         lemma_count_remove(p, q, b, hi - 1);
     }
 }
+
+// L8: however the work is split, every bucket the root range would yield is yielded by exactly one leaf,
+// and nothing else is yielded
+proof fn lemma_split_tree<T>(t: &SplitTree<T>, j: int)
+    requires t.valid(),
+    ensures t.leaves_yielding(j) == (if t.root().rem(j) { 1nat } else { 0nat }),
+    decreases t,
+{
+    match t {
+        SplitTree::Leaf(_) => {}
+        SplitTree::Node(r, a, b) => {
+            lemma_split_tree(&**a, j);
+            lemma_split_tree(&**b, j);
+            assert(r.rem(j) <==> (a.root().rem(j) || b.root().rem(j)));
+            assert(!(a.root().rem(j) && b.root().rem(j)));
+        }
+    }
+}
+
+// nothing satisfying p in [a, b): the ascending enumerations up to a and up to b coincide
+proof fn lemma_enum_skip(p: spec_fn(int) -> bool, a: int, b: int)
+    requires a <= b, forall|j: int| a <= j < b ==> !#[trigger] p(j),
+    ensures enum_upto(p, b) == enum_upto(p, a),
+    decreases b - a,
+{
+    if a < b { lemma_enum_skip(p, a, b - 1); }
+}
+
+// b is the next element after position a
+proof fn lemma_enum_step(p: spec_fn(int) -> bool, a: int, b: int)
+    requires 0 <= a <= b, p(b), forall|j: int| a <= j < b ==> !#[trigger] p(j),
+    ensures enum_upto(p, b + 1) == enum_upto(p, a).push(b),
+{
+    lemma_enum_skip(p, a, b);
+}
+
+// everything the range will yield lies at or after its scan position
+proof fn lemma_enum_prefix_empty(p: spec_fn(int) -> bool, cur: int, lo: int)
+    requires forall|j: int| #[trigger] p(j) ==> j >= cur,
+    ensures enum_upto(p, cur) == Seq::<int>::empty(),
+    decreases cur,
+{
+    if cur > 0 { lemma_enum_prefix_empty(p, cur - 1, lo); } 
+}
